@@ -18,16 +18,17 @@ import (
 
 // Fault kinds.
 const (
-	FReset      = "reset"             // connection aborted, buffered bytes lost, both sides fail
-	FClosePeer  = "close-peer"        // the other side closes gracefully at this operation
-	FCloseLocal = "close-local"       // this side closes at this operation
-	FWriteErr   = "write-partial-err" // Write delivers a prefix and returns an error; the connection is broken afterwards
-	FCrash      = "node-crash"        // all connections of the peer's node are reset at once
-	FDialFail   = "dial-fail"
-	FEOFData    = "eof+data" // counted when a read returns data together with io.EOF
-	FCut        = "cut-at-byte" // the incoming stream ends (EOF or reset) after exactly N bytes were read
-	FFrag       = "frag"     // counted when a read returns less than was available and asked for
-	FStallWrite = "backpressure"
+	FReset       = "reset"             // connection aborted, buffered bytes lost, both sides fail
+	FClosePeer   = "close-peer"        // the other side closes gracefully at this operation
+	FCloseLocal  = "close-local"       // this side closes at this operation
+	FWriteErr    = "write-partial-err" // Write delivers a prefix and returns an error; the connection is broken afterwards
+	FCrash       = "node-crash"        // all connections of the peer's node are reset at once
+	FDialFail    = "dial-fail"
+	FEOFData     = "eof+data"               // counted when a read returns data together with io.EOF
+	FWriteBroken = "write-direction-broken" // counted per failed write of a side whose outgoing direction was broken
+	FCut         = "cut-at-byte"            // the incoming stream ends (EOF or reset) after exactly N bytes were read
+	FFrag        = "frag"                   // counted when a read returns less than was available and asked for
+	FStallWrite  = "backpressure"
 )
 
 // Errors of the simulated transport.
@@ -231,25 +232,26 @@ type Mark struct {
 
 // half is one direction of a connection.
 type half struct {
-	mu      sync.Mutex
-	buf     []byte
-	cap     int
-	sync    bool // net.Pipe semantics: Write returns when everything was read
-	wclosed bool // writer closed: reader drains then sees EOF
-	rclosed bool // reader closed: writer fails
-	reset   bool
-	stalled bool // the reading process does not take anything (harness controlled)
-	cutOn   bool
-	cutAt   int  // with cutOn: the reader gets exactly this many bytes in total, then the end of the stream
-	cutRst  bool // the end is a reset instead of a clean EOF
-	cutDone bool
-	wait    chan struct{}
-	wlock   zsync.Mutex
-	tap     []byte // every byte ever accepted
-	wmarks  []Mark // accepted offsets
-	rmarks  []Mark // consumed offsets
-	retmark []Mark // offset written when a Write call returned (Seq = moment of return)
-	rdOff   int
+	mu       sync.Mutex
+	buf      []byte
+	cap      int
+	sync     bool // net.Pipe semantics: Write returns when everything was read
+	wclosed  bool // writer closed: reader drains then sees EOF
+	rclosed  bool // reader closed: writer fails
+	reset    bool
+	writeErr error // every write into this direction fails with it (harness controlled)
+	stalled  bool  // the reading process does not take anything (harness controlled)
+	cutOn    bool
+	cutAt    int  // with cutOn: the reader gets exactly this many bytes in total, then the end of the stream
+	cutRst   bool // the end is a reset instead of a clean EOF
+	cutDone  bool
+	wait     chan struct{}
+	wlock    zsync.Mutex
+	tap      []byte // every byte ever accepted
+	wmarks   []Mark // accepted offsets
+	rmarks   []Mark // consumed offsets
+	retmark  []Mark // offset written when a Write call returned (Seq = moment of return)
+	rdOff    int
 }
 
 func newHalf(capacity int, syncPipe bool) *half {
@@ -328,6 +330,15 @@ func (c *Conn) CutIncomingAfter(n int, reset bool) {
 	h.cutAt = h.rdOff + n
 	h.cutRst = reset
 	h.broadcast()
+	h.mu.Unlock()
+}
+
+// FailWrites makes every further Write of this side fail with err, without
+// closing anything (a broken outgoing path).
+func (c *Conn) FailWrites(err error) {
+	h := c.wr
+	h.mu.Lock()
+	h.writeErr = err
 	h.mu.Unlock()
 }
 
@@ -593,6 +604,15 @@ func (c *Conn) Write(p []byte) (int, error) {
 	h := c.wr
 	h.wlock.Lock()
 	defer h.wlock.Unlock()
+	h.mu.Lock()
+	broken := h.writeErr
+	h.mu.Unlock()
+	if broken != nil {
+		// the outgoing direction is broken for good (harness controlled);
+		// the incoming one and the connection itself stay as they are
+		c.nw.fire(FWriteBroken)
+		return 0, broken
+	}
 	limit := len(p)
 	failAfter := false
 	if f := c.nw.nextOp(c, "write", len(p)); f != "" {
